@@ -1041,16 +1041,25 @@ func (r *Run) protectedPrefixTests(f *ssa.Function, member string) map[string]bo
 					if lf := r.E.Facts(x.Parent(), core.Ctx{}); !lf.Live[x.Block()] {
 						continue
 					}
+					// the prefix: a constant, also one read from a table of constants (a slice literal nobody writes)
+					prefix, isConst := "", false
 					if k, ok := cc.Args[1].(*ssa.Const); ok && k.Value != nil && k.Value.Kind() == constant.String {
+						prefix, isConst = constant.StringVal(k.Value), true
+					} else if pt := r.E.Facts(x.Parent(), core.Ctx{}).TB.Of(cc.Args[1]); pt.Op == "const" {
+						if kv, ok := pt.Val.(*ssa.Const); ok && kv.Value != nil && kv.Value.Kind() == constant.String {
+							prefix, isConst = constant.StringVal(kv.Value), true
+						}
+					}
+					if isConst {
 						ff := r.E.Facts(x.Parent(), core.Ctx{})
 						if crefs := x.Referrers(); crefs != nil {
 							for _, cr := range *crefs {
 								if iff, ok := cr.(*ssa.If); ok && onlyErrors(ff, iff.Block().Succs[0]) {
-									out[constant.StringVal(k.Value)] = true
+									out[prefix] = true
 								}
 								// required prefix: the pointer must start with the constant (false edge only reaches errors)
 								if iff, ok := cr.(*ssa.If); ok && onlyErrors(ff, iff.Block().Succs[1]) {
-									out["required:"+constant.StringVal(k.Value)] = true
+									out["required:"+prefix] = true
 								}
 							}
 						}
@@ -1116,6 +1125,16 @@ func (r *Run) errorPropagated(c *ssa.Call) bool {
 				}
 			}
 		}
+	}
+	// the error is merged with others and tested after the join (the shape an inlined helper leaves): propagated iff
+	// no success return is reachable from the call except across the nil outcome of its error (the E11 criterion)
+	if res := f.Signature.Results(); res.Len() > 0 && res.At(res.Len()-1).Type().String() == "error" {
+		for _, u := range r.unguardedErrorSites(f) {
+			if u.Call == c {
+				return false
+			}
+		}
+		return true
 	}
 	return false
 }
